@@ -79,9 +79,10 @@ func runC05(e *Engine, g G, o RunOpt) RunInfo {
 	}
 	io2 := InboundOpts{AllowSpace: true, AllowEntity: true, AllowNested: true, AllowBig: true, AllowIQReq: true, IDPrefix: "in",
 		AllowR: !sc.Component, AllowA: !sc.Component && !o.Avoiding("ack-answer-without-sm"), MaxA: 5}
-	if sc.Client.SM && !sc.Component {
-		// with stream management on, <a/> drives retransmission (C10's
-		// business); keep it out of this scenario
+	if sc.Client.SM && !sc.Component && !g.Pct("acks-with-sm", 30) {
+		// with stream management on, <a/> drives retransmission (C10's business): mostly kept out of
+		// this scenario - but an <a/> is an element a server can send at any time, with any h,
+		// also when nothing is held
 		io2.AllowA = false
 	}
 	wsCut, wsQuiet := false, false
